@@ -20,6 +20,7 @@ utf8   to_unicode(utf8(s)) == s; utf8(to_unicode(b)) == b for valid UTF-8; ident
 query  parse_qs_bytes(qs, keep_blank_values=True) for qs as bytes and as latin-1 text equals
        {name.decode('latin1'): [value bytes ...]} built from the generating pairs (each byte was emitted
        raw or as %XX; space also as '+'); without keep_blank_values the blank values (only) are dropped.
+       Finite part byte_sweep: every byte value literal inside a name / value is preserved ('&', first '=', '+', '%XX' aside).
 
 Sensitivity (quick tier, seed 1, scratch copy of /repo/tornado; all caught):
   M1 xhtml_escape: html.escape(...).replace("&#x27;", "'")  (apostrophe entity dropped) -> C21.html_forbidden_char
@@ -43,6 +44,10 @@ Sensitivity (quick tier, seed 1, scratch copy of /repo/tornado; all caught):
      caught at seeds 1,2,3 -> C21.query_exact_after_caller_mutated_earlier_result.  Generally: every parser-like helper
      (parse_qs_bytes, json_decode, recursive_unicode) is now called, its result mutated in place by the harness
      (scramble()), and called again with the identical and with an equal-but-not-identical input; json_encode twice.
+  M12 parse_qs_bytes rewrites every ';' to '&' before parsing (round-10 boundary mutant; missed because the generator
+     always percent-encoded ';')   caught at seeds 1,2,3 by the finite "byte_sweep" part (every byte 0x00-0xFF literal at
+     first/middle/last/only position of a name and of a value, bytes and latin-1 text input, both keep_blank_values)
+     -> C21.query_literal_byte_preserved (byte 0x3B); the Hypothesis query part now also emits raw ';'.
   Equivalent (not caught, cannot be): url_unescape text branch always using unquote_plus -- url_escape never
   emits a raw '+' when plus=False, so the round-trip law the statement gives cannot tell the two apart.
 """
@@ -66,8 +71,9 @@ RULE = (
 )
 ASSUMPTIONS = [
     "the five entities xhtml_escape documents (&amp; &lt; &gt; &quot; &#x27;) are 'the entities it introduced'",
-    "a query string is name=value pairs joined by '&' where '&', ';', '+' and '%'-followed-by-two-hex-digits "
-    "inside a name or value are percent-encoded and '=' inside a name is percent-encoded (WHATWG urlencoded)",
+    "a query string is name=value pairs joined by '&' only (parse_qs_bytes documents itself as parsing 'like "
+    "urlparse.parse_qs', whose only pair separator on Python >= 3.10 is '&'; WHATWG urlencoded agrees): a literal ';' is "
+    "data.  '&', '+' and '%'-followed-by-two-hex-digits inside a name or value must be percent-encoded, and '=' inside a name",
     "JSON-representable = None/bool/int/finite float/str/list/dict with str keys; equality is type-strict",
     "invalid UTF-8 given to the text helpers is outside 'valid data': UnicodeDecodeError or a safe result",
     "'reject other types' (statement) + 'must be a byte string / unicode string' (docstrings) means TypeError for anything "
@@ -617,8 +623,8 @@ utf8_s = st.one_of(
 # ----------------------------------------------------------------------------------------- query
 # A pair is (name_units, value_units, with_equals); a unit is (byte, mode) with mode in
 # "raw" | "pct" (upper-case %XX) | "pct_lower" | "plus" (only for 0x20).
-MUST_ENCODE_NAME = set(b"&;+=")
-MUST_ENCODE_VALUE = set(b"&;+")
+MUST_ENCODE_NAME = set(b"&+=")   # ';' is NOT a separator (urllib.parse.parse_qs splits on '&' only): it is data
+MUST_ENCODE_VALUE = set(b"&+")
 QBYTES = st.one_of(
     st.integers(0, 255),
     st.sampled_from(list(b"&;=+% /?#\xff\xe9\x80\x00\n\r\tazAZ09%%++")),
@@ -724,6 +730,48 @@ def run_query(ctx, case):
 
 query_s = st.lists(pair_s, min_size=1, max_size=6)
 
+
+# ---- one-byte sweep: every byte value written literally (unescaped) at the first / middle / last position of a
+# name and of a value, and as the whole name / value.  Everything is data and must come back byte-exact, except the
+# documented syntax: '&' separates pairs (skipped), the first '=' ends the name (skipped inside names), '+' means
+# space, and '%' starts an escape only when two hex digits follow (the context letters x, y, z are not hex digits).
+def byte_sweep_cases():
+    for b in range(256):
+        for where in ("name", "value"):
+            for pos in ("first", "middle", "last", "only"):
+                if b == 0x26 or (b == 0x3D and where == "name"):
+                    continue
+                yield (b, where, pos)
+
+
+@no_raise("query")
+def run_byte_sweep(ctx, case):
+    b, where, pos = case
+    raw = bytes([b])
+    field = {"first": raw + b"yz", "middle": b"x" + raw + b"z", "last": b"xy" + raw, "only": raw}[pos]
+    decoded = field.replace(b"+", b" ")
+    name_w, value_w = (field, b"v1") if where == "name" else (b"k1", field)
+    name_d, value_d = (decoded, b"v1") if where == "name" else (b"k1", decoded)
+    qs_bytes = b"p=q&" + name_w + b"=" + value_w + b"&t=u"
+    expected = {}
+    for n, v in ((b"p", b"q"), (name_d, value_d), (b"t", b"u")):   # in order of appearance
+        expected.setdefault(n.decode("latin1"), []).append(v)
+    for arg, form in ((qs_bytes, "bytes"), (qs_bytes.decode("latin1"), "latin1_text")):
+        for keep in (True, False):
+            got = escape.parse_qs_bytes(arg, keep_blank_values=keep)
+            if got != expected:
+                ctx.fail("C21.query_literal_byte_preserved",
+                         {"byte": b, "where": where, "position": pos, "query": qs_bytes, "form": form,
+                          "keep_blank_values": keep, "got": got, "want": expected})
+    labels = {"byte_sweep"}
+    if b in b";,:/?#[]@!$'()*":
+        labels.add("literal_reserved_byte")
+    if b >= 0x80:
+        labels.add("literal_high_byte")
+    if b < 0x20 or b == 0x7F:
+        labels.add("literal_control_byte")
+    ctx.note(case, labels, True)
+
 # ------------------------------------------------------------------------------- normal-form sweep
 FORMS_CONTEXTS = ["%s", "a%sb", "&%s<", " %s/+%%", "\"%s'</"]
 
@@ -770,13 +818,14 @@ def types_cases():
     yield ("none", None)
 
 
-PARTS = {"types": run_utf8, "forms": run_forms, "html": run_html, "url": run_url, "json": run_json, "utf8": run_utf8, "query": run_query}
+PARTS = {"byte_sweep": run_byte_sweep, "types": run_utf8, "forms": run_forms, "html": run_html, "url": run_url, "json": run_json, "utf8": run_utf8, "query": run_query}
 
 
 def main(ctx):
     ctx.run_replays(PARTS)
     ctx.enumerate(forms_cases(), run_forms, name="forms")
     ctx.enumerate(types_cases(), run_utf8, name="types")
+    ctx.enumerate(byte_sweep_cases(), run_byte_sweep, name="byte_sweep")
     ctx.explore(html_s, run_html, ctx.n(800, 60000), name="html")
     ctx.explore(url_s, run_url, ctx.n(800, 60000), name="url")
     ctx.explore(json_value, run_json, ctx.n(800, 60000), name="json")
